@@ -506,8 +506,14 @@ class Runner:
 
     def record(self, raised, exc):
         stale, got, want = self.g.stale_cells()
+        how = {}
+        for c in stale:
+            g_exc = len(got[c]) > 0 and got[c][0] == "EXC"
+            w_exc = len(want[c]) > 0 and want[c][0] == "EXC"
+            how[c] = ("cached-where-fresh-raises" if w_exc and not g_exc else
+                      "raises-where-fresh-evaluates" if g_exc and not w_exc else "stale")
         self.obs.append({"raised": raised, "exc": exc, "flags": sorted(self.g.flags()),
-                         "leaves": self.leaf_stamps(), "stale": stale})
+                         "leaves": self.leaf_stamps(), "stale": stale, "how": how})
 
     def apply(self, op, k):
         """op: JSON-able dict; k: its position in the history. Returns False when the op was skipped."""
@@ -870,12 +876,11 @@ def run_history(flags_of_class, drv, hist, want_model=True, small=False):
         if ob["raised"] and op is not None and op["op"] not in ("eval", "evalall"):
             res["violation"] = {"step": i, "kind": "raises", "class": ob["exc"][1], "exc": ob["exc"], "op": op}
             break
-        if ob["raised"] and op is not None:
-            res["violation"] = {"step": i, "kind": "getter-raises", "class": ob["exc"][1], "exc": ob["exc"], "op": op}
-            break
+        # (a getter that raises is judged like any other outcome: against the fresh rebuild, which may raise too)
         if ob["stale"]:
             c = ob["stale"][0]
-            res["violation"] = {"step": i, "kind": "stale", "class": rn.g.cls[rn.g.cells[c].owner],
+            how = ob.get("how", {}).get(c, "stale")
+            res["violation"] = {"step": i, "kind": how, "class": rn.g.cls[rn.g.cells[c].owner],
                                 "cell": rn.g.describe_cell(c), "all": [rn.g.describe_cell(x) for x in ob["stale"]],
                                 "op": op}
             break
@@ -1125,7 +1130,7 @@ def run(ck: Check):
                         "ref": 1, "tune": 50.0 if kind == "dirichlet" else (0.5 if kind == "scaler" else 0.05)})
     if not ck.thorough():  # quick tier: every assignment target and every operator, a sample of the rest
         keep = [u for u in singles if u["op"] in ("propose", "draw")]
-        for kind, n in (("assign", 34), ("inplace", 6), ("reassign", 8), ("grad", 4)):
+        for kind, n in (("assign", 28), ("inplace", 6), ("reassign", 6), ("grad", 3)):
             pool = [u for u in singles if u["op"] == kind]
             keep += rng.sample(pool, min(n, len(pool)))
         singles_run = keep
@@ -1173,7 +1178,7 @@ def run(ck: Check):
     modes = [("assign", None), ("inplace", "copy_"), ("inplace", "add_"), ("inplace", "mul_"), ("inplace", "index"),
              ("reassign", None), ("slide", None), ("grad", None)]
     for lid in tree_leaves:
-        for mode, how in (modes if ck.thorough() else rng.sample(modes[:1], 1) + modes[1:5] + rng.sample(modes[5:], 2)):
+        for mode, how in (modes if ck.thorough() else rng.sample(modes[:1], 1) + rng.sample(modes[1:5], 3) + rng.sample(modes[5:], 1)):
             v = value_for(g0, lid, rng)
             if mode in ("assign", "inplace"):
                 u = {"op": mode, "target": lid, "value": v.reshape(-1).tolist(), "shape": list(v.shape)}
@@ -1186,6 +1191,20 @@ def run(ck: Check):
             else:
                 u = {"op": "grad", "target": lid, "value": True}
             handle([{"op": "evalall"}, u], "update-modes/tree-parameters")
+    # FAILURE THEN RETRY: evaluate, put a parameter where evaluation RAISES (outside the support of a validated
+    # torch distribution, a non positive-definite covariance), evaluate (raises), evaluate the same node and the
+    # enclosing ones AGAIN, repair the parameter, evaluate: a call after a failed one must raise again or recompute,
+    # never answer from the cache.  (Oracle only: the fresh rebuild raises too; failing getters are not in the machine.)
+    for lid, bad, node, above in (("kappa_rate", [-1.0], "prior_kappa", "joint"), ("theta", [-2.0], "prior_theta", "joint"),
+                                  ("mvn_cov", [1.0, 2.0, 2.0, 1.0], "mvn", "joint_in"), ("theta2", [-1.0], "coal2", "joint_out"),
+                                  ("bb_scale", [-1.0], "bridge", "joint_in")):
+        o = g0.dic[lid]
+        ub = {"op": "assign", "target": lid, "value": bad, "shape": list(o.tensor.shape)}
+        v = value_for(g0, lid, rng)
+        ug = {"op": "assign", "target": lid, "value": v.reshape(-1).tolist(), "shape": list(v.shape)}
+        en, ea = {"op": "eval", "node": node, "cell": 0}, {"op": "eval", "node": above, "cell": 0}
+        handle([{"op": "evalall"}, ub, dict(en), dict(en), dict(ea), dict(ea), ug, {"op": "evalall"}], "failure-then-retry", model=False)
+        handle([dict(ea), ub, dict(ea), dict(en), dict(ea), ug, dict(ea)], "failure-then-retry", model=False)
     # several VALUE-EQUAL consumers of the same plain parameters (duplicate CatParameter / TransformedParameter /
     # ViewParameter wrappers, prefix lists, both build orders): evaluate one consumer, update a shared leaf (or
     # update THROUGH a twin), evaluate again — every consumer must follow
@@ -1215,7 +1234,7 @@ def run(ck: Check):
     # ANOTHER view (setter / edit+reassign / real operator / draw), the first must not stay stale
     vpairs = [(a, b) for a in G.VIEWS for b in G.VIEWS if a != b]
     if not ck.thorough():
-        vpairs = rng.sample(vpairs, 18)
+        vpairs = rng.sample(vpairs, 12)
     for i, (va, vb) in enumerate(vpairs):
         ea = {"op": "eval", "node": "prior_" + va, "cell": 0}
         v = value_for(g0, vb, rng)
@@ -1286,7 +1305,7 @@ def run(ck: Check):
     depth2 = list(itertools.product(alphabet, repeat=2))
     if not ck.thorough():
         rng.shuffle(depth2)
-        depth2 = depth2[:50]
+        depth2 = depth2[:30]
     for i, (a, b) in enumerate(depth2):
         if i % 2 == 1:
             # DTYPE REGIME: torch's own default (float32) with float64 parameters, for every other history
@@ -1321,7 +1340,10 @@ def run(ck: Check):
             ck.violation(sig, f"values differ between grad modes: {v['cells']}", {"violation": v})
             continue
         what = (f"{v['class']}: " + (f"public operation ({v["op"]["op"]}) raises {v['exc'][0]} ({v['exc'][2]})" if v["kind"] == "raises"
-                                     else f"getter raises {v['exc']}" if v["kind"] == "getter-raises"
+                                     else f"{v['cell']} returns a cached value where a fresh copy with the same parameter values raises"
+                                     if v["kind"] == "cached-where-fresh-raises"
+                                     else f"{v['cell']} raises where a fresh copy with the same parameter values evaluates"
+                                     if v["kind"] == "raises-where-fresh-evaluates"
                                      else f"{v['cell']} returns a stale value (also stale: {len(v['all']) - 1} downstream)")
                 + f" after a history of {len(hist)} operation(s)")
         ck.violation(sig, what, {"history": hist, "small_graph": on_small, "violation": v, "broken_obligations": broken,
